@@ -82,6 +82,36 @@ class WatchedFifo:
         return self.fifo.deliver(net)
 
 
+class PartyPickle:
+    """pickle front end for one party copy of mpyc in the simulator: the m copies of the package are not in
+    sys.modules, so classes pickled by reference (gfpx polynomial values of extension-field shares) must be looked up in
+    the copy of the party that pickles / unpickles."""
+
+    def __init__(self, mods):
+        self.mods = mods
+
+    def _with(self, f, *a, **k):
+        import sys
+        saved = {n: sys.modules.get(n) for n in self.mods}
+        sys.modules.update(self.mods)
+        try:
+            return f(*a, **k)
+        finally:
+            for n, v in saved.items():
+                if v is None:
+                    sys.modules.pop(n, None)
+                else:
+                    sys.modules[n] = v
+
+    def dumps(self, *a, **k):
+        import pickle
+        return self._with(pickle.dumps, *a, **k)
+
+    def loads(self, *a, **k):
+        import pickle
+        return self._with(pickle.loads, *a, **k)
+
+
 def run_batch(ctx, m, t, no_prss, cases, case_coro, seed, want_log=False, arity3=ARITY):
     """One pass: cases run in order in one simulator; at the first case that does not complete (hang / escaped
     exception) that simulator is discarded and the rest continues in a fresh one."""
@@ -93,6 +123,8 @@ def run_batch(ctx, m, t, no_prss, cases, case_coro, seed, want_log=False, arity3
     restarts = 0
     while i < len(cases):
         sim = Sim(m, t, no_prss=no_prss, seed=seed, track_tasks=False, log_messages=want_log)
+        for k_ in range(m):       # arrays over extension fields are pickled: resolve classes in that party's module copy
+            sim.mods[k_]['mpyc.runtime'].pickle = PartyPickle(sim.mods[k_])
         errs = []
         sim.loop.set_exception_handler(lambda loop, c: errs.append(repr(c.get('exception'))[:200]))
         try:
@@ -656,6 +688,283 @@ def thresha_checks(ctx, np):
     ctx.extra['thresha_exact_agreements'] = n_ok
 
 
+# ------------------------------------------------------------------------------------------------
+# secure arrays over extension fields GF(2^8), GF(3^4) and a medium prime field, m=3,t=1 and m=5,t=2: array sharing
+# (np_random_split), resharing and recombination with field-typed x-coordinates; outputs checked at EVERY party
+
+EXT_FIELDS = (2 ** 8, 3 ** 4, 2 ** 31 - 1)
+EXT_OPS = ('add', 'sub', 'mul', 'matmul', 'eq', 'ne', 'neg', 'sum', 'sum_axis0', 'sec_scalar_mul', 'transpose', 'reshape',
+           'concatenate', 'getitem', 'inout', 'mul_chain')
+
+
+def enc(gfpx, e, q):
+    """integer encoding of an int / gfpx polynomial / finite field element"""
+    if isinstance(e, gfpx.Polynomial):
+        return int(e)
+    v = getattr(e, 'value', e)
+    if isinstance(v, gfpx.Polynomial):
+        return int(v)
+    return int(v) % q
+
+
+def main_field(FF, q):
+    import math
+    for pr in (2, 3):
+        d = round(math.log(q, pr))
+        if pr ** d == q and d > 1:
+            return FF.GF(FF.find_irreducible(pr, d))
+    return FF.GF(q)
+
+
+def ext_cases(ctx, per_op):
+    rng = ctx.rng
+    cases = []
+    for q in EXT_FIELDS:
+        for op in EXT_OPS:
+            for rep in range(per_op):
+                if op == 'matmul':
+                    xs, ys = rng.choice([((2, 3), (3, 2)), ((3,), (3,)), ((2, 2), (2,)), ((1, 4), (4, 2))])
+                elif op in ('add', 'sub', 'mul', 'eq', 'ne'):
+                    xs, ys = rng.choice([((2, 3), (2, 3)), ((2, 3), (3,)), ((4,), (4,)), ((2, 2), (2, 1)), ((3,), (1,))])
+                elif op == 'sec_scalar_mul':
+                    xs, ys = rng.choice([(3,), (2, 2)]), ()
+                else:
+                    xs = ys = rng.choice([(3,), (2, 3), (2, 2), (4,)])
+                xv = [rng.choice([0, 1, q - 1, rng.randrange(q), rng.randrange(q)]) for _ in range(prodshape(xs))]
+                yv = [rng.choice([0, 1, q - 1, rng.randrange(q), rng.randrange(q)]) for _ in range(max(1, prodshape(ys)))]
+                if op in ('eq', 'ne'):
+                    A, B, _ = bc_index(__import__('numpy'), xs, ys)
+                    for a_, b_ in zip(A, B):
+                        if rng.random() < 0.5:
+                            yv[b_] = xv[a_]
+                cases.append((q, op, list(xs), xv, list(ys), yv))
+    return cases
+
+
+async def ext_case_coro(mpc, mods, pid, case):
+    (q, op, xs, xv, ys, yv) = case
+    np = mods['mpyc.numpy'].np
+    secfld = mpc.SecFld(q)
+    F = secfld.field
+    m = len(mpc.parties)
+
+    def arr(vals, shape):
+        return secfld.array(F.array(np.array(vals, dtype=object).reshape(shape)))
+
+    def canon(v):
+        if hasattr(v, 'value') and hasattr(v.value, 'reshape'):
+            return ('arr', list(v.shape), [int(e) for e in v.value.reshape(-1).tolist()])
+        return ('val', int(v))
+    x = mpc.input(arr(xv, xs), senders=0)
+    if op == 'sec_scalar_mul':
+        y = mpc.input(secfld(F(yv[0])), senders=m - 1)
+    else:
+        y = mpc.input(arr(yv, ys), senders=m - 1)
+    out = {}
+    xl = x.flatten().tolist()
+    yl = y.flatten().tolist() if op != 'sec_scalar_mul' else [y]
+    sc = None
+    if op in ('add', 'sub', 'mul', 'eq', 'ne'):
+        f = EW[op]
+        r = f(x, y)
+        A, B, shp = bc_index(np, tuple(xs), tuple(ys))
+        sc = ('arr', shp, [canon(v)[1] for v in await mpc.output([f(xl[a], yl[b]) for a, b in zip(A, B)])])
+    elif op == 'matmul':
+        r = x @ y
+        terms, _, _, shp = mm_index(np, tuple(xs), tuple(ys))
+        vals = [canon(v)[1] for v in await mpc.output([mpc.sum([xl[a] * yl[b] for a, b in tt]) for tt in terms])]
+        sc = ('arr', shp, vals) if shp else ('val', vals[0])
+    elif op == 'neg':
+        r = -x
+    elif op == 'sum':
+        r = np.sum(x)
+        sc = canon(await mpc.output(mpc.sum(xl)))
+    elif op == 'sum_axis0':
+        r = np.sum(x, axis=0)
+    elif op == 'sec_scalar_mul':
+        r = x * y
+        sc = ('arr', list(xs), [canon(v)[1] for v in await mpc.output([e * y for e in xl])])
+    elif op == 'transpose':
+        r = x.T
+    elif op == 'reshape':
+        r = np.reshape(x, (-1,))
+    elif op == 'concatenate':
+        r = np.concatenate((x, y))
+    elif op == 'getitem':
+        r = x[-1]
+    elif op == 'mul_chain':
+        r = (x * y) * x + y         # two successive array resharings
+    elif op == 'inout':
+        ins = mpc.input(arr(xv, xs), senders=list(range(m)))     # every party is a sender once
+        r = ins[0]
+        for z in ins[1:]:
+            r = r + z
+    v = await mpc.output(r)
+    out['arr'] = canon(v)
+    if sc is not None:
+        out['sc'] = sc
+    return out
+
+
+def ext_oracle(FF, case, m):
+    """plain field arithmetic with SCALAR field elements (no arrays, no thresha): values as integer encodings"""
+    import numpy
+    (q, op, xs, xv, ys, yv) = case
+    F = main_field(FF, q)
+    X = [F(v) for v in xv]
+    Y = [F(v) for v in yv]
+
+    def E(e):
+        return enc(FF.gfpx, e, q)
+    if op in ('add', 'sub', 'mul', 'eq', 'ne', 'mul_chain'):
+        A, B, shp = bc_index(numpy, tuple(xs), tuple(ys))
+        if op == 'mul_chain':
+            vals = [E((X[a] * Y[b]) * X[a] + Y[b]) for a, b in zip(A, B)]
+        elif op in ('eq', 'ne'):
+            vals = [int(EW[op](X[a], Y[b])) for a, b in zip(A, B)]
+        else:
+            vals = [E(EW[op](X[a], Y[b])) for a, b in zip(A, B)]
+        return ('arr', shp, vals)
+    if op == 'matmul':
+        terms, _, _, shp = mm_index(numpy, tuple(xs), tuple(ys))
+        vals = []
+        for tt in terms:
+            acc = F(0)
+            for a, b in tt:
+                acc = acc + X[a] * Y[b]
+            vals.append(E(acc))
+        return ('arr', shp, vals) if shp else ('val', vals[0])
+    if op == 'neg':
+        return ('arr', xs, [E(-e) for e in X])
+    if op == 'sec_scalar_mul':
+        return ('arr', xs, [E(e * Y[0]) for e in X])
+    if op == 'inout':
+        acc = [F(0)] * len(X)
+        for _ in range(m):
+            acc = [a + e for a, e in zip(acc, X)]
+        return ('arr', xs, [E(e) for e in acc])
+    idx = numpy.arange(len(X)).reshape(xs)
+    if op == 'sum':
+        acc = F(0)
+        for e in X:
+            acc = acc + e
+        return ('val', E(acc))
+    if op == 'sum_axis0':
+        cols = idx.reshape(xs[0], -1)
+        vals = []
+        for j in range(cols.shape[1]):
+            acc = F(0)
+            for i in range(cols.shape[0]):
+                acc = acc + X[int(cols[i, j])]
+            vals.append(E(acc))
+        return ('arr', xs[1:], vals) if len(xs) > 1 else ('val', vals[0])
+    if op == 'transpose':
+        r = idx.T
+        return ('arr', list(r.shape), [E(X[int(i)]) for i in r.reshape(-1)])
+    if op == 'reshape':
+        return ('arr', [len(X)], [E(e) for e in X])
+    if op == 'concatenate':
+        return ('arr', [xs[0] + ys[0]] + xs[1:], [E(e) for e in X + Y])
+    if op == 'getitem':
+        r = idx[-1]
+        if r.shape == ():
+            return ('val', E(X[int(r)]))
+        return ('arr', list(r.shape), [E(X[int(i)]) for i in r.reshape(-1)])
+    raise KeyError(op)
+
+
+def same_val(a, b):
+    if a[0] == b[0]:
+        return a == b
+    if {a[0], b[0]} == {'arr', 'val'}:
+        arr, val = (a, b) if a[0] == 'arr' else (b, a)
+        return arr[1] == [] and arr[2] == [val[1]]
+    return False
+
+
+def ext_stream(ctx, FF):
+    configs = [(3, 1, False), (5, 2, False), (3, 1, True), (5, 2, True)]
+    for ci, (m, t, no_prss) in enumerate(configs):
+        t1 = time.time()
+        cases = ext_cases(ctx, ctx.n(1, 4))
+        res = run_cases(ctx, m, t, no_prss, cases, ext_case_coro, seed=ctx.seed + 101 * m + no_prss)
+        cfg = 'm=%d t=%d%s' % (m, t, ' no-prss' if no_prss else '')
+        for case, got in zip(cases, res):
+            (q, op, xs, xv, ys, yv) = case
+            key = {'field_order': q, 'op': op, 'xs': xs, 'xv': xv, 'ys': ys, 'yv': yv, 'cfg': cfg}
+            fname = 'GF(2^8)' if q == 256 else ('GF(3^4)' if q == 81 else 'GF(2^31-1)')
+            want = ext_oracle(FF, case, m)
+            if isinstance(got, tuple):      # EXC / HANG / DIVERGE (the parties' outputs are compared with each other)
+                ctx.violation('array-ext %s %s %s %s' % (op, got[0].lower(), fname, cfg), dict(key, got=str(got)[:600], want=want))
+                continue
+            if not same_val(got['arr'], want):
+                ctx.violation('array-ext %s wrong vs field scalars %s %s' % (op, fname, cfg), dict(key, got=got['arr'], want=want))
+                continue
+            if 'sc' in got and not same_val(got['sc'], want):
+                ctx.violation('array-ext %s secure scalars disagree %s %s' % (op, fname, cfg), dict(key, arrays=got['arr'], scalars=got['sc'], want=want))
+                continue
+            ctx.case(key, nontrivial=True, kind='ext %s %s %s' % (op, fname, cfg))
+        ctx.log('extension/medium-prime field arrays %s: %d cases in %.1fs' % (cfg, len(cases), time.time() - t1))
+
+
+def thresha_ext_checks(ctx, np):
+    """np_random_split vs random_split over extension fields on the same (permuted) tape; every (t+1)-subset of the
+    array shares must recombine (list-based recombine, x-coordinates field(i)) to the secrets."""
+    from mpyc import thresha, finfields
+    import secrets as _secrets
+    rng = ctx.rng
+    n_ok = 0
+    for (pr, d) in ((2, 8), (3, 4), (2, 3), (5, 2)):
+        Fq = finfields.GF(finfields.find_irreducible(pr, d))
+        q = pr ** d
+        from mpyc import gfpx as _gf
+        E = lambda e, q=q: enc(_gf, e, q)
+        for m in range(2, 7):
+            if m >= q:
+                continue
+            for t in range(1, m):
+                n = rng.choice([1, 2, 3])
+                ss = [rng.choice([0, 1, q - 1, rng.randrange(q)]) for _ in range(n)]
+                tape = [rng.randrange(q) for _ in range(t * n)]
+                key = {'field': '%d^%d' % (pr, d), 'm': m, 't': t, 'ss': ss, 'tape': tape}
+                thresha.secrets = Tape(tape)
+                try:
+                    npsh = thresha.np_random_split(Fq, Fq.array(np.array(ss, dtype=object)), t, m)
+                finally:
+                    thresha.secrets = _secrets
+                npsh = [[E(v) for v in row] for row in np.asarray(npsh).tolist()]
+                perm = [tape[(t - 1 - j) * n + h] for h in range(n) for j in range(t)]
+                thresha.secrets = Tape(perm)
+                try:
+                    lsh = thresha.random_split(Fq, [Fq(s_) for s_ in ss], t, m)
+                finally:
+                    thresha.secrets = _secrets
+                lsh = [[E(v) for v in row] for row in lsh]
+                ctx.case(dict(key, what='np_random_split ext'), nontrivial=True, kind='thresha np_random_split GF(p^d)')
+                if npsh != lsh:
+                    ctx.violation('thresha-np_random_split differs from random_split on the permuted tape GF(%d^%d)' % (pr, d),
+                                  dict(key, np=npsh, list=lsh))
+                    continue
+                subs = list(itertools.combinations(range(m), t + 1))
+                if len(subs) > 20:
+                    subs = rng.sample(subs, 20)
+                bad = None
+                for I in subs:
+                    pts = [(i + 1, [Fq(v) for v in npsh[i]]) for i in I]
+                    rec = [E(v) for v in thresha.recombine(Fq, pts, 0)]
+                    rec_np = thresha.np_recombine(Fq, [(i + 1, npsh[i]) for i in I], 0)
+                    rec_np = [E(v) for v in np.asarray(rec_np.value if hasattr(rec_np, 'value') else rec_np).reshape(-1).tolist()]
+                    if rec != ss or rec_np != ss:
+                        bad = (list(I), rec, rec_np)
+                        break
+                if bad:
+                    ctx.violation('thresha-np_random_split shares not on a degree-t polynomial GF(%d^%d)' % (pr, d),
+                                  dict(key, subset=bad[0], recombined=bad[1], np_recombined=bad[2]))
+                else:
+                    n_ok += 1
+    ctx.extra['thresha_extension_field_agreements'] = n_ok
+
+
 def run(ctx):
     ok = ctx.build() and ctx.check_props()
     try:
@@ -674,6 +983,8 @@ def run(ctx):
     ctx.explanation = ('index-map/lifting/matmul theorems over all shapes; secure arrays, secure scalars, NumPy and the '
                        'vm_compute model run on the same inputs; thresha np_* functions vs list versions exactly')
     thresha_checks(ctx, np)
+    thresha_ext_checks(ctx, np)
+    import mpyc.finfields as FF
     ctx.log('thresha np_* vs list versions: %d exact agreements' % ctx.extra.get('thresha_exact_agreements', 0))
     configs = [(1, 0, False, ctx.n(6, 20)), (3, 1, False, ctx.n(3, 10)), (3, 1, True, ctx.n(2, 6)), (1, 0, True, ctx.n(2, 6))]
     model_items = []
@@ -724,6 +1035,7 @@ def run(ctx):
             if e is not None and len(model_items) < ctx.n(500, 4000):
                 model_items.append((case, got['arr'], e))
         ctx.log('%s: %d cases in %.1fs' % (cfg, len(cases), time.time() - t1))
+    ext_stream(ctx, FF)
     # (iii) Coq model
     if ok and model_items:
         res = ctx.coq_eval(['MPyC.Arrays'], [e for (_, _, e) in model_items], chunk=100)
